@@ -6,12 +6,40 @@ from .. import expr
 from .r5 import _controlling_conditions
 
 
+_ROLE_CACHE = {}
+
+
+def roles_of(f):
+    """names by role, so that renaming a local does not matter: results and out-parameters of the
+    user callbacks (`read_terminal()', `out1(read_rule)', ...)"""
+    if f.name in _ROLE_CACHE:
+        return _ROLE_CACHE[f.name]
+    r = {}
+    for i in f.calls():
+        if i.callee:
+            continue
+        co = strip_casts(f, i.d["callee_op"])
+        if co.get("k") != "a":
+            continue
+        pname = f.args[co["v"]]["name"]
+        r[("inst", i.id)] = "%s()" % pname
+        for k, a in enumerate(i.args):
+            pa = resolve_addr(f, a)
+            if pa.root[0] == "alloca" and not pa.steps:
+                r[("alloca", pa.root[1])] = "out%d(%s)" % (k, pname)
+    # loads of a renamed result variable keep the role through phis of one source
+    _ROLE_CACHE[f.name] = r
+    return r
+
+
 def _lin(f, op):
     expr.NAMED[0] = True
+    expr.ROLES[0] = roles_of(f)
     try:
         return expr.lin(f, op, 0, 4)
     finally:
         expr.NAMED[0] = False
+        expr.ROLES[0] = None
 
 
 def _cond_str(f, c, pol):
@@ -96,22 +124,22 @@ def _norm(f, c, pol):
 # code macro -> list of specs; a spec is a set of conditions all of which must control the site.
 # Frozen from the sources (identifiers of /repo), each row = one documented defect.
 SPECS = {
-    "YAEP_NEGATIVE_TERM_CODE": [["-1*L[&code] + -1 >= 0"]],
-    "YAEP_REPEATED_TERM_DECL": [["symb_find_by_repr(name) != 0"]],
-    "YAEP_REPEATED_TERM_CODE": [["symb_find_by_code(L[&code]) != 0"],
+    "YAEP_NEGATIVE_TERM_CODE": [["-1*L[&out0(read_terminal)] + -1 >= 0"]],
+    "YAEP_REPEATED_TERM_DECL": [["symb_find_by_repr(read_terminal()) != 0"]],
+    "YAEP_REPEATED_TERM_CODE": [["symb_find_by_code(L[&out0(read_terminal)]) != 0"],
                                 ["-1 != L[(L[@sterms.vlo_t.vlo_start])[i].sterm.code]", "-1 != L[(prev).sterm.code]",
                                  "L[(L[@sterms.vlo_t.vlo_start])[i].sterm.code] != L[(prev).sterm.code]"]],
     "YAEP_FIXED_NAME_USAGE": [['symb_find_by_repr("error") != 0'],
                               ["L[(L[@grammar]).grammar.axiom] != 0"],
                               ["L[(L[@grammar]).grammar.end_marker] != 0"],
-                              ["L[(L[@grammar]).grammar.axiom] == symb_find_by_repr(lhs)"],
-                              ["any(L[(L[@grammar]).grammar.axiom] == symb_find_by_repr(L[(L[&rhs])]) | L[(L[@grammar]).grammar.end_marker] == symb_find_by_repr(L[(L[&rhs])]))"]],
-    "YAEP_NO_RULES": [["L[(L[@grammar]).grammar.axiom] == 0", "lhs == 0"]],
-    "YAEP_TERM_IN_RULE_LHS": [["L[(symb_find_by_repr(lhs)).symb.term_p] != 0"]],
-    "YAEP_INCORRECT_TRANSLATION": [["L[&anode] == 0", "L[&transl] != 0", "L[(L[&transl])[1]] >= 0", "L[(L[&transl])] >= 0"]],
-    "YAEP_NEGATIVE_COST": [["-1*L[&anode_cost] + -1 >= 0", "L[&anode] != 0"]],
-    "YAEP_INCORRECT_SYMBOL_NUMBER": [["2147483647 != L[(L[&transl])[i]]", "L[(L[&transl])[i]] + -1*L[(rule).rule.rhs_len] >= 0", "L[(L[&transl])[i]] >= 0"]],
-    "YAEP_REPEATED_SYMBOL_NUMBER": [["-1*L[(L[&transl])[i]] + L[(rule).rule.rhs_len] + -1 >= 0", "L[(L[(rule).rule.order])[L[(L[&transl])[i]]]] >= 0", "L[(L[&transl])[i]] >= 0"]],
+                              ["L[(L[@grammar]).grammar.axiom] == symb_find_by_repr(read_rule())"],
+                              ["any(L[(L[@grammar]).grammar.axiom] == symb_find_by_repr(L[(L[&out0(read_rule)])]) | L[(L[@grammar]).grammar.end_marker] == symb_find_by_repr(L[(L[&out0(read_rule)])]))"]],
+    "YAEP_NO_RULES": [["L[(L[@grammar]).grammar.axiom] == 0", "read_rule() == 0"]],
+    "YAEP_TERM_IN_RULE_LHS": [["L[(symb_find_by_repr(read_rule())).symb.term_p] != 0"]],
+    "YAEP_INCORRECT_TRANSLATION": [["L[&out1(read_rule)] == 0", "L[&out3(read_rule)] != 0", "L[(L[&out3(read_rule)])[1]] >= 0", "L[(L[&out3(read_rule)])] >= 0"]],
+    "YAEP_NEGATIVE_COST": [["-1*L[&out2(read_rule)] + -1 >= 0", "L[&out1(read_rule)] != 0"]],
+    "YAEP_INCORRECT_SYMBOL_NUMBER": [["2147483647 != L[(L[&out3(read_rule)])[i]]", "L[(L[&out3(read_rule)])[i]] + -1*L[(rule).rule.rhs_len] >= 0", "L[(L[&out3(read_rule)])[i]] >= 0"]],
+    "YAEP_REPEATED_SYMBOL_NUMBER": [["-1*L[(L[&out3(read_rule)])[i]] + L[(rule).rule.rhs_len] + -1 >= 0", "L[(L[(rule).rule.order])[L[(L[&out3(read_rule)])[i]]]] >= 0", "L[(L[&out3(read_rule)])[i]] >= 0"]],
     "YAEP_UNACCESSIBLE_NONTERM": [["L[(nonterm_get(i)).symb.access_p] == 0", "strict_p != 0"]],
     "YAEP_NONTERM_DERIVATION": [["L[(nonterm_get(i)).symb.derivation_p] == 0", "strict_p != 0"],
                                 ["L[(L[(L[@grammar]).grammar.axiom]).symb.derivation_p] == 0", "strict_p == 0"]],
